@@ -288,8 +288,10 @@ def make_fault(sel):
 # the world: event log, use counter, fault injection, sources, callables
 # ---------------------------------------------------------------------------
 class World:
-    def __init__(self, mode, susp=0, fault_at=0, fault=None, fn_susp=None):
+    def __init__(self, mode, susp=0, fault_at=0, fault=None, fn_susp=None, fault_kind=None):
         self.mode = mode  # 'a' (asyncstdlib side) or 's' (stdlib side)
+        self.fault_kind = fault_kind  # None: k-th use overall; 'pull'/'end'/'call': k-th use of that kind
+        self.kuses = 0
         self.log = []
         self.uses = 0
         self.fault_at = fault_at
@@ -311,7 +313,14 @@ class World:
         if self.faulted:
             self.bad("c06:use-after-fault")
         self.uses += 1
-        if self.fault_at and self.uses == self.fault_at:
+        if self.fault_kind is None:
+            hit = self.fault_at and self.uses == self.fault_at
+        else:
+            hit = False
+            if ev[0] == self.fault_kind:
+                self.kuses += 1
+                hit = self.fault_at and self.kuses == self.fault_at
+        if hit:
             self.faulted = True
             self.log.append(("fault",) + tuple(ev[:2]))
             raise self.fault
@@ -337,6 +346,8 @@ class World:
             st.obj = AsyncClsSource(st)
         elif flavour == "bare":
             st.obj = AsyncBareSource(st)
+        elif flavour == "afull":
+            st.obj = AsyncFullSource(st)
         else:
             raise HarnessError("flavour %r" % (flavour,))
         return st.obj
@@ -420,7 +431,7 @@ class SrcState:
         f = self.flavour
         if f == "agen":
             return self.ended or self.closed > 0 or self.obj.ag_frame is None
-        if f == "acls":
+        if f == "acls" or f == "afull":
             return self.ended or self.closed > 0
         return True  # nothing to release for sync / bare sources
 
@@ -536,6 +547,18 @@ class AsyncClsSource(AsyncBareSource):
         if not st.closed and not st.ended:
             st.world.log.append(("close", st.sid))
         st.closed += 1
+
+
+class AsyncFullSource(AsyncClsSource):
+    """Class based async iterator offering the whole generator protocol."""
+
+    def asend(self, value):
+        return self.__anext__()
+
+    async def athrow(self, exc):
+        self.st.closed += 1
+        self.st.world.log.append(("close", self.st.sid))
+        raise exc
 
 
 # ---------------------------------------------------------------------------
